@@ -159,6 +159,17 @@ func initVerifAPI() {
 		"verifLockCount": func(fr *frame, a []value) value {
 			return fr.in.int64v(int64(fr.in.path.lockEvents))
 		},
+		// verifRecursionLimit(n): more than n nested calls from here on is a
+		// stack overflow of the program under test (fatal, not recoverable)
+		"verifRecursionLimit": func(fr *frame, a []value) value {
+			in := fr.in
+			n := in.concretiseInt(a[0], "verifRecursionLimit")
+			if n > 0 {
+				n += int64(in.depth(fr))
+			}
+			in.path.recursionLimit = int(n)
+			return nil
+		},
 		"verifOnCondWait": func(fr *frame, a []value) value {
 			fr.in.path.condWaitHook = a[0]
 			return nil
